@@ -1,6 +1,31 @@
-"""C01 — decided on the session machine."""
+"""C01 — decided on the session machine, plus a store that keeps entries beyond the session's deadlines."""
+import json
+
+from lib import vf
+from lib.machine import authenticated
 from lib.props import _mach
 
 
 def run(ctx):
     _mach.run_modes(ctx, ['history', 'faults', 'conc'], ['c01'])
+    # "a token only for a session that ... had not ended / timed out": in the machine an entry expires exactly at the session's end, so
+    # there the store, not the validation, keeps ended sessions out. Here the store keeps the entry (lagging expiry / clock skew): no
+    # request of any mode may then be forwarded with that session's token.
+    pre = ctx.path("storelag")
+    out, dt = vf.run_driver(["storelag", "-out", pre, "-seed", str(ctx.seed), "-tier", ctx.tier])
+    ctx.timings["storelag"] = round(dt, 2)
+    n = 0
+    for line in open(pre + ".obs"):
+        d = json.loads(line)
+        n += 1
+        if not d["entry_still_in_store"] or d["endpoint"] not in ("p", "sp", "f"):
+            continue
+        o = d["outcome"]
+        if authenticated(o) or (d["endpoint"] == "f" and o[:2] == [2, 204]):
+            ctx.violation("c01-token-for-ended-session" if d["after"].startswith("end") else "c01-token-for-inactive-session",
+                          "a request was forwarded with the token of a session that had %s (the store still holds its entry)"
+                          % ("ended" if d["after"].startswith("end") else "passed its inactivity deadline"), d)
+    ctx.evals += n
+    ctx.nontrivial += n
+    ctx.extra["lagging_store_requests"] = n
+    ctx.rule += "; plus %d requests against a store that keeps the entry beyond the session's end / inactivity deadline" % n
